@@ -291,6 +291,14 @@ func runC18(c *vCtx, scratch string, idx int64, k c18Case, paceTotal time.Durati
 		stream := append([]byte{}, headerFor(k.Size)...)
 		for i := 0; i < k.Count; i++ {
 			p := framePayload(i, k.Size, salt)
+			if i == 0 && idx%2 == 0 {
+				// the first frame begins with line feeds, which arrive in the same segment as the
+				// blank line that ends the header
+				for j := 0; j < len(p) && j < 1+int(idx%3); j++ {
+					p[j] = '\n'
+				}
+				c.Count("first_frames_beginning_with_line_feeds", 1)
+			}
 			sent = append(sent, p)
 			stream = append(stream, p...)
 		}
